@@ -319,6 +319,11 @@ class EventRelatedAnalyzer(desc.ResetMixin):
                 else:
                     event_trig = self.data.data[i][idx + add_offset]
 
+                #Correct baseline by removing the first point in the series
+                #(as is done for time-series events above):
+                if self._correct_baseline:
+                    event_trig = event_trig - event_trig[0]
+
                 h[i] = np.mean(event_trig, -1)
 
         h = np.array(h).squeeze()
@@ -380,6 +385,11 @@ class EventRelatedAnalyzer(desc.ResetMixin):
                 #array:
                 else:
                     event_trig = self.data.data[i][idx + add_offset]
+
+                #Correct baseline by removing the first point in the series
+                #(as is done for time-series events above):
+                if self._correct_baseline:
+                    event_trig = event_trig - event_trig[0]
 
                 h[i] = stats.sem(event_trig, -1)
 
